@@ -8,13 +8,16 @@ LEAN_MODULES = ["Gv.Props.C11"]
 REQUIRED_THEOREMS = ["Gv.Props.C11." + n for n in [
     "every_source_of_nondeterminism_is_accounted_for", "single_seeding_point", "seed_flag_decides",
     "matrix_independent_of_threads", "inInputOrder_arrival_independent", "runGen_bind", "runGen_replM_map",
-    "distboot_eq_seqboot_then_dist", "chain_roundtrip", "chain_fasta_nexus", "chain_all_formats"]]
+    "distboot_eq_seqboot_then_dist", "chain_roundtrip", "chain_fasta_nexus", "chain_all_formats",
+    "chain_to_format", "chain_all_formats_stockholm", "chain_from_stockholm"]]
 LEVEL_TEXT = ("Lean theorems: (1) over the determinism facts regenerated with the Go type checker on every run (every map range, "
               "goroutine, clock / pid read and seeding call of the non-test code) — each is of a shape that cannot reach the output; "
               "(2) with --seed the clock is irrelevant; (3) pool results are independent of worker count and schedule, results put back "
               "in input order are independent of arrival order; (4) distboot = distance of seqboot for every seed; (5) any chain of "
               "formats that round-trip returns the starting bytes (chain_all_formats: instantiated for FASTA, Nexus, Phylip with all 8 writer "
-              "layouts and Clustal from the C02 round-trip theorems). Tied to /repo "
+              "layouts and Clustal from the C02 round-trip theorems; chain_all_formats_stockholm: the same with Stockholm at any position; "
+              "chain_to_format / chain_from_stockholm: a chain that ends in ANY writer returns what that writer gives directly - what the "
+              "command line can do with Stockholm, which it reads with -k and writes only from a Stockholm input). Tied to /repo "
               "by T3 (regenerated facts), by exact replay of seeded commands on the binary (`cli_seeded`: the bytes predicted from the "
               "C10 programs on the math/rand replica) and by running every documented command of the freshly built binary several "
               "times with thread counts 1..16 and comparing stdout, stderr, exit status and every file written.")
@@ -28,16 +31,23 @@ RULE = ("every documented goalign command with representative flags, on random n
         "columns, gaps, ambiguity codes, ties in columns) or unaligned ORF-bearing sequences, with side files where needed; each "
         "invocation executed 3 (quick) or 5 (thorough) times with --threads from {1,2,3,4,8,16}, comparing exit status, stdout, stderr "
         "and all files written; seeded commands with random seeds; reformat chains over random permutations of fasta / phylip / nexus "
-        "/ clustal; seqboot + compute distance against distboot for 5 models; cli_seeded: exact predicted bytes. Non-trivial = the "
+        "/ clustal; Stockholm files (written by a -k command from a hand-written one, checked against the writer model) through 0-4 "
+        "-k commands and a reformat chain of 0-5 formats, the last one possibly paml / tnt, against the direct reformat; seqboot + compute distance against distboot for 5 models; cli_seeded: exact predicted bytes. Non-trivial = the "
         "command succeeded and wrote at least 20 bytes (or it is an error-path case with at least two invalid arguments)")
 PARTIAL = ["the bytes of each individual command are not modelled here (C01-C10, C12-C16 model the operations; exceptions: the seeded commands "
-           "of `cli_seeded`, and `divide` / `identical`, whose files / answer are predicted from the Phylip parser model, the writers and a "
-           "four-line model of Identical - oracle only, no theorem); C11's theorems are about "
+           "of `cli_seeded`, `reformat paml` (writer model Model/Fmt/Paml.lean, also compared with the library writer by the C02 `write paml` "
+           "cases; no theorem: a write-only format), and `divide` / `identical`, whose files / answer are predicted from the Phylip parser model, the writers and the "
+           "model of Identical in Model/Identical.lean - characterised by the C01 theorems identical_iff_same_records / identicalRows_spec and "
+           "compared with the library by the C01 harness op `identical`); C11's theorems are about "
            "the sources of nondeterminism, seeding, thread independence of the pool / ordered collection, distboot = seqboot + distance, "
            "and format chains",
            "chain theorem instantiated for FASTA, Nexus, Phylip (8 layouts) and Clustal (chain_all_formats, under the hypotheses of "
            "the C02 round-trip theorems: representable in every format used, counts within int64, version text without line break); "
-           "Stockholm is not a `reformat` target",
+           "Stockholm is not a `reformat` target: it is read with -k and written only by commands that print a Stockholm input back, so "
+           "the run-time Stockholm chains (`detchainsto`) start from a Stockholm file written by goalign, go through -k commands that must "
+           "return it byte for byte, then through a reformat chain whose result must be the bytes of the direct `reformat <last> -k` "
+           "(chain_from_stockholm); chain_all_formats_stockholm also covers chains that would come back to Stockholm, which no command "
+           "can realise",
            "the Go runtime (map iteration order, scheduler) is outside the model: the facts say no map order / schedule can reach "
            "the output, the repeated runs look for a counterexample",
            "draw png / biojs and `completion` are not exercised"]
@@ -379,7 +389,21 @@ def gen(rng, tier):
             if f != chain[-1]:
                 chain.append(f)
         yield Case("detchain", [esc(fasta(rows)), ",".join(chain)], True, "chain-%d" % len(chain))
-    # --- seqboot + distance = distboot ----------------------------------------------------------------
+    # --- chains that start from a Stockholm file (read with -k; written only by -k commands that print their alignment) ---
+    for _ in range(8 if quick else 100):
+        rows = nt_alignment(rng, 2, 8, 3, 130) if rng.random() < 0.7 else aa_alignment(rng)
+        if rng.random() < 0.4:
+            rows = [(nm, "".join(rng.choice("?*") if rng.random() < 0.08 else ch for ch in sq)) for nm, sq in rows]
+        k = rng.choice([0, 1, 1, 2, 3, 4])
+        n = rng.choice([0, 1, 1, 2, 3, 4, 5])
+        chain = []
+        while len(chain) < n:
+            f = rng.choice(fmts)
+            if not chain or f != chain[-1]:
+                chain.append(f)
+        if chain and rng.random() < 0.25:
+            chain.append(rng.choice(["paml", "tnt"]))     # the last writer needs no parser
+        yield Case("detchainsto", [esc(fasta(rows)), k, ",".join(chain) or "_"], True, "chain-stockholm-%d-%d" % (k, len(chain)))
     for m in ("k2p", "jc", "pdist", "f81", "tn93", "f84", "rawdist"):
         for fl in ("", " -r"):
             for _ in range(1 if quick else 6):
@@ -406,7 +430,7 @@ def gen(rng, tier):
         yield c
     # --- exact bytes of two unseeded commands nobody else owns: divide (files per alignment / group), identical -----
     from driver import cligen
-    for c in cligen.cases(rng, ['divide', 'identical', 'nalign-phylip'], 30 if quick else 300):
+    for c in cligen.cases(rng, ['divide', 'identical', 'nalign-phylip', 'reformat-paml'], 30 if quick else 300):
         yield c
 
 
@@ -429,6 +453,14 @@ def recheck(binpath, cases):
 
 def shrink(c):
     """drop rows / columns of the FASTA on stdin; drop thread counts"""
+    if c.op == "detchainsto":
+        ch = [f for f in str(c.args[2]).split(",") if f != "_"]
+        for i in range(len(ch)):
+            c2 = ch[:i] + ch[i + 1:]
+            if all(a != b for a, b in zip(c2, c2[1:])):
+                yield Case("detchainsto", [c.args[0], c.args[1], ",".join(c2) or "_"])
+        if int(c.args[1]) > 0:
+            yield Case("detchainsto", [c.args[0], int(c.args[1]) - 1, c.args[2]])
     if c.op == "detchain":
         ch = c.args[1].split(",")
         for i in range(len(ch)):
@@ -450,6 +482,6 @@ def shrink(c):
         if r2:
             yield Case(c.op, [esc(fasta(r2))] + rest)
     L = min(len(s) for _, s in rows) if rows else 0
-    if c.op in ("det", "detchain") and L > 1:
+    if c.op in ("det", "detchain", "detchainsto") and L > 1:
         for lo, hi in ((0, L // 2), (L // 2, L)):
             yield Case(c.op, [esc(fasta([(n, s[:lo] + s[hi:]) for n, s in rows]))] + rest)
